@@ -128,7 +128,8 @@ def move_staticmethod_static_scope(source: str, preserve: Collection[str]) -> st
             ):
                 class_attribute_accesses.add(node)
             else:
-                attributes_to_preserve.add(node.value.id)
+                # Accessed through some other object, which may be an instance of the class
+                attributes_to_preserve.add(node.attr)
 
     static_names = {funcdef.name for funcdef in parsing.iter_funcdefs(root)} | preserve
     name_replacements = {}
@@ -160,7 +161,7 @@ def move_staticmethod_static_scope(source: str, preserve: Collection[str]) -> st
 
         for node in class_attribute_accesses:
             classdef_aliases = [classdef.name]
-            if classdef.lineno < node.lineno < classdef.end_lineno:
+            if classdef.lineno < node.lineno <= classdef.end_lineno:
                 classdef_aliases.extend(("self", "cls"))
 
             template = ast.Attribute(
